@@ -73,7 +73,13 @@
 //!              are the simple name in the module's namespace), or-patterns whose alternatives bind the same variables,
 //!              `let x = &mut <call>` (the variable owns the temporary), `io::Cursor::new(slice)` as a `ReadCursor`,
 //!              const-generic array length of `let x = f(..)?` inferred from the array-typed struct / variant field that
-//!              `x` later initialises, a diverging macro as the value of a `Result` match arm
+//!              `x` later initialises, a diverging macro as the value of a `Result` match arm;
+//!              `std::net` (`SocketAddr::V4(a)` / `V6(a)` patterns, `a.ip().octets()`, `port()`, `SocketAddr::new`,
+//!              `IpAddr::V4/V6`, `Ipv4Addr::from` / `Ipv6Addr::from`), `iter().filter(|x| pure bool).count()`,
+//!              `iter().flatten()` over `Option`s, `for x in place.iter_mut().take(n)`, integer `match` with `const`
+//!              patterns (an `if` chain), arithmetic in `const` initialisers (exact: evaluated by the compiler),
+//!              `i32::to_le_bytes`; a variable holding a `&mut` reference / cursor that is passed as a bare call
+//!              argument counts as assigned (it is threaded through the enclosing loop / branch)
 //!   not supported: `loop`, valued `break`, closures, generics, traits, signed integers, floats,
 //!              references stored in data, `ref mut`, `&mut` parameters other than `self`, unsigned integers and the
 //!              octets / io cursors.
